@@ -26,7 +26,7 @@ type KnownFile struct {
 
 func defaultConfig() Config {
 	return Config{MaxAlloc: 1 << 16, MaxSymAlloc: 96, MaxConcretize: 300, Unwind: 80, MaxSteps: 3_000_000,
-		SolverKind: "z3-new", TimeoutMs: 20000, MaxPaths: 20000}
+		SolverKind: "z3-new", TimeoutMs: 20000, MaxPaths: 20000, TraceSamples: 3}
 }
 
 func main() {
@@ -189,6 +189,9 @@ func cmdRun(args []string) int {
 	}
 	cfg := defaultConfig()
 	cfg.SolverKind = *solver
+	if *tier == "thorough" {
+		cfg.TraceSamples = 8
+	}
 	r := &Runner{ld: ld, cfg: cfg, workers: *workers}
 	var results []*HarnessResult
 	for _, h := range ps.Harnesses {
